@@ -28,17 +28,21 @@ def check_c04(prop, tier, seed):
     n, ln = (60, 60) if quick else (700, 120)
     plans = [("chunked", "small", 0, n), ("chunked", "small", -1, n // 2), ("std", "small", 0, n // 4)]
     if not quick:
-        plans += [("chunked", "huge", 0, 40), ("chunked", "small", 250, 60), ("chunked", "small", 1, 60)]
+        plans += [("chunked", "huge", 0, 12), ("chunked", "huge", 200, 6), ("chunked", "small", 250, 60), ("chunked", "small", 1, 60)]
     stats = {}
     for i, (mode, sizes, keylen, cnt) in enumerate(plans):
         out = run.path("hs%d.ndjson" % run._next())
         sock = run.path("hsock%d" % run._next())
         os.makedirs(sock)
         p = subprocess.Popen([exe, "handler-seq", "-dir", sock, "-out", out, "-mode", mode, "-sizes", sizes, "-keylen", str(keylen),
-                              "-n", str(cnt), "-len", str(ln), "-seed", str(seed * 10 + i)], stdout=subprocess.PIPE, stderr=subprocess.PIPE, text=True)
+                              "-n", str(cnt), "-len", str(30 if sizes == "huge" else ln), "-seed", str(seed * 10 + i)], stdout=subprocess.PIPE, stderr=subprocess.PIPE, text=True)
         jobs.append((p, out, "%s/%s/keylen=%s" % (mode, sizes, keylen)))
     for p, out, name in jobs:
-        so, se = p.communicate(timeout=3000)
+        try:
+            so, se = p.communicate(timeout=3000)
+        except subprocess.TimeoutExpired:
+            p.kill()
+            raise Infra("handler-seq %s did not finish within 3000 s" % name)
         if p.returncode != 0:
             run.driver_failed("handler-seq %s failed" % (name), se)
         stats[name] = json.loads(so.strip().splitlines()[-1])
